@@ -198,6 +198,7 @@ class Parser:
         self.bodies = {}      # name -> Body
         self.order = []
         self.allocs = {}      # 'allocN' -> dict(kind=..., ...)
+        self.simple_consts = {}  # name -> (value, type) of single-line const items
 
     # ------------------------------------------------------------------ top level
     def parse(self):
@@ -206,6 +207,15 @@ class Parser:
         n = len(L)
         while i < n:
             line = L[i]
+            m1 = re.match(r'(?:static|const) (?:mut )?((?:<impl at [^>]*>|::|[^:])+?): (.*) = const (.*);$', line)
+            if m1:
+                # single-line constant item:  const NAME: T = const VALUE;
+                try:
+                    self.simple_consts[m1.group(1)] = self._const(None, m1.group(3))
+                except Exception:
+                    pass
+                i += 1
+                continue
             if line.startswith('fn ') or line.startswith('static ') or line.startswith('const '):
                 j = i
                 while j < n and L[j] != '}':
